@@ -95,6 +95,8 @@ type Unit struct {
 	shape       *bodyShape // loops / literals of this unit's own body (current tree)
 	goneLoops   []int      // baseline loop ordinals without a counterpart in the current body
 	goneLits    []int
+	calleeAlias map[*ast.CallExpr]string // call through a function variable, while dispatched to one of its targets
+	funcConsts  map[string]*types.Func // constants standing for top-level functions used as values
 	clauseFired map[*Clause]bool // assert@ / oncall clauses that met at least one point of the body
 	newHelpers  []string // callees without contract, not inlinable, that did not exist in the baseline
 	curBin      string // source text of the binary expression being evaluated (obligation names)
@@ -306,6 +308,15 @@ func (u *Unit) newFrame(fn *types.Func, sig *types.Signature, body *ast.BlockStm
 				for _, k := range u.goneLoops {
 					if ls, ok := spec.Loops[k]; ok && len(ls.Invariants) > 0 {
 						u.failed = append(u.failed, fmt.Sprintf("has no loop %d any more (contract has invariants for it)", k))
+						continue
+					}
+					pre := fmt.Sprintf("loop%d.", k)
+					for _, cs := range [][]*Clause{spec.Ghost, spec.Asserts} {
+						for _, c := range cs {
+							if strings.HasPrefix(c.Arg, pre) {
+								u.failed = append(u.failed, fmt.Sprintf("has no loop %d any more (contract has clauses anchored at it)", k))
+							}
+						}
 					}
 				}
 			}
@@ -539,6 +550,17 @@ func (u *Unit) resultEnv(st *State, fr *frame, fc *FuncContract, base map[string
 	env := map[string]Value{}
 	for k, v := range base {
 		env[k] = v
+	}
+	// results that were named at baseline time keep those names in the contract (positionally), whatever the
+	// signature calls them now
+	if fr.fn != nil && u.lit == nil {
+		if rs, ok := u.eng.localsBase[funcKey(fr.fn)+"#results"]; ok && len(rs) == len(fr.results) {
+			for i, rv := range fr.results {
+				if rs[i].Name != "" && rs[i].Name != "_" && rs[i].Name != rv.Name() {
+					env[rs[i].Name] = u.load(st, LV{kind: lvVar, obj: rv, T: rv.Type()})
+				}
+			}
+		}
 	}
 	for i, rv := range fr.results {
 		v := u.load(st, LV{kind: lvVar, obj: rv, T: rv.Type()})
